@@ -569,13 +569,24 @@ class TRIADk(SingleFrame):
         return p.get('frame', 'NED')
 
     def refs(self, p, dip):
-        if self._frame(p) == 'NED':
-            return Z_UP, W.mref_from_dip('x', dip)
-        return Z_DN, W.mref_from_dip('y', dip)
+        a_ref, m_ref = (Z_UP, W.mref_from_dip('x', dip)) if self._frame(p) == 'NED' else (Z_DN, W.mref_from_dip('y', dip))
+        if p.get('v1') is not None:
+            # a user-supplied first reference (a tilted gravity reference, a sun vector): any direction that is
+            # not close to the second reference
+            v1 = np.array(p['v1'], dtype=float)
+            v1 = v1 / np.linalg.norm(v1)
+            m = np.array(m_ref, dtype=float)
+            if abs(float(v1 @ m)) / np.linalg.norm(m) > 0.9:
+                v1 = v1 * np.array([-1.0, 1.0, -1.0]) if self._frame(p) == 'NED' else v1 * np.array([1.0, -1.0, -1.0])
+            a_ref = tuple(float(x) for x in v1)
+        return a_ref, m_ref
 
     def ctor_kwargs(self, p, dt, dip):
-        return {'representation': p.get('representation', 'rotmat'), 'frame': self._frame(p),
-                'v2': [float(x) for x in self.refs(p, dip)[1]]}
+        kw = {'representation': p.get('representation', 'rotmat'), 'frame': self._frame(p),
+              'v2': [float(x) for x in self.refs(p, dip)[1]]}
+        if p.get('v1') is not None:
+            kw['v1'] = [float(x) * float(p.get('v1_scale', 1.0)) for x in self.refs(p, dip)[0]]
+        return kw
 
     def batch(self, p, dt, dip, gyr, acc, mag):
         o = _f().TRIAD(acc, mag, **self.ctor_kwargs(p, dt, dip))
@@ -676,6 +687,9 @@ def gen_params(rnd, kind, *, with_q0=True, defaults_prob=0.3):
     elif kind == 'triad':
         p['representation'] = rnd.choice(['quaternion', 'rotmat'])
         p['frame'] = rnd.choice(['NED', 'ENU'])
+        if rnd.random() < 0.4:
+            p['v1'] = W.rand_unit(rnd)
+            p['v1_scale'] = rnd.choice([1.0, 1.0, 9.81])
     elif kind in ('quest', 'davenport'):
         if rnd.random() < 0.5:
             p['weights'] = [rnd.uniform(0.1, 2), rnd.uniform(0.1, 2)]
